@@ -30,7 +30,32 @@ def _special_unitaries(rng):
           np.kron(cirq.unitary(cirq.H), cirq.unitary(cirq.T)), cirq.testing.random_unitary(4, random_state=rng.randrange(10 ** 6)),
           cirq.unitary(cirq.FSimGate(np.pi / 2, np.pi)), cirq.unitary(cirq.XX ** 0.5) @ np.kron(cirq.unitary(cirq.Y ** 0.3), np.eye(2)), cirq.unitary(cirq.SWAP) * 1j,
           cirq.unitary(cirq.ZZ ** 0.25), cirq.unitary(cirq.CZ ** 1e-9)]
+    u4 += [cirq.unitary(cirq.givens(0.3)), cirq.unitary(cirq.SQRT_ISWAP_INV), cirq.unitary(cirq.FSimGate(np.pi / 2, np.pi / 6)), cirq.unitary(cirq.PhasedISwapPowGate(phase_exponent=0.3, exponent=0.7)),
+           np.kron(cirq.unitary(cirq.Z), cirq.unitary(cirq.S)), np.kron(cirq.unitary(cirq.T), cirq.unitary(cirq.rx(0.4))), np.diag(np.exp(1j * np.array([0.1, 0.7, -0.4, 1.3]))),
+           cirq.unitary(cirq.CNOT)[np.ix_([0, 2, 1, 3], [0, 2, 1, 3])], cirq.unitary(cirq.ISWAP ** 0.5) @ np.kron(cirq.unitary(cirq.S), cirq.unitary(cirq.Z ** 0.3))]
     return u2, u4
+
+
+class _OnlyUnitary:
+    """a user gate that defines nothing but its matrix: the exporter has to fall back to its matrix decompositions"""
+
+    def __new__(cls, m):
+        import cirq
+
+        class G(cirq.Gate):
+            def __init__(self, m):
+                self._m = np.array(m)
+
+            def _num_qubits_(self):
+                return int(np.log2(self._m.shape[0]))
+
+            def _unitary_(self):
+                return self._m
+
+            def __repr__(self):
+                return f"OnlyUnitaryGate({self._m.tolist()!r})"
+
+        return G(m)
 
 
 def _op_makers(rng):
@@ -45,7 +70,7 @@ def _op_makers(rng):
            lambda q: cirq.PhasedXPowGate(phase_exponent=rng.choice([0, 0.3, 0.5, -0.7, 1.9]), exponent=e)(q[0]),
            lambda q: cirq.PhasedXZGate(x_exponent=e, z_exponent=rng.choice([0, 0.3, -1.2]), axis_phase_exponent=rng.choice([0, 0.2, 0.5, -0.9]))(q[0]),
            lambda q: cirq.MatrixGate(rng.choice(u2))(q[0]), lambda q: cirq.S(q[0]), lambda q: cirq.T(q[0]) ** -1,
-           lambda q: cirq.GlobalPhaseGate(1j).on(), lambda q: cirq.circuits.qasm_output.QasmUGate(e, 0.3, -0.4)(q[0])]
+           lambda q: cirq.GlobalPhaseGate(1j).on(), lambda q: cirq.circuits.qasm_output.QasmUGate(e, 0.3, -0.4)(q[0]), lambda q: _OnlyUnitary(rng.choice(u2))(q[0])]
     two = [lambda q: cirq.CZPowGate(exponent=e, global_shift=s)(q[0], q[1]), lambda q: cirq.CXPowGate(exponent=e, global_shift=s)(q[0], q[1]),
            lambda q: cirq.SWAP(q[0], q[1]) ** e, lambda q: cirq.ISWAP(q[0], q[1]) ** e, lambda q: cirq.XX(q[0], q[1]) ** e, lambda q: cirq.YY(q[0], q[1]) ** e,
            lambda q: cirq.ZZ(q[0], q[1]) ** e, lambda q: cirq.FSimGate(0.4, 0.3)(q[0], q[1]), lambda q: cirq.PhasedISwapPowGate(phase_exponent=0.2, exponent=e)(q[0], q[1]),
@@ -53,7 +78,8 @@ def _op_makers(rng):
            lambda q: cirq.ControlledOperation([q[0]], cirq.XPowGate(exponent=1, global_shift=s)(q[1])), lambda q: cirq.ControlledOperation([q[0]], cirq.H(q[1])),
            lambda q: cirq.ControlledOperation([q[0]], cirq.Z(q[1]), control_values=[0]), lambda q: cirq.IdentityGate(2)(q[0], q[1]),
            lambda q: cirq.CZ(q[0], q[1]), lambda q: cirq.givens(0.3)(q[0], q[1]), lambda q: cirq.TwoQubitDiagonalGate([0.1, 0.2, 0.3, 0.5])(q[0], q[1]),
-           lambda q: cirq.ParallelGate(cirq.X ** e, 2)(q[0], q[1]), lambda q: cirq.DensePauliString("XZ", coefficient=-1)(q[0], q[1])]
+           lambda q: cirq.ParallelGate(cirq.X ** e, 2)(q[0], q[1]), lambda q: cirq.DensePauliString("XZ", coefficient=-1)(q[0], q[1]),
+           lambda q: _OnlyUnitary(rng.choice(u4))(q[0], q[1]), lambda q: _OnlyUnitary(rng.choice(u4))(q[0], q[1]), lambda q: _OnlyUnitary(rng.choice(u4))(q[1], q[0])]
     three = [lambda q: cirq.CCZ(*q[:3]) ** e, lambda q: cirq.CCX(*q[:3]) ** e, lambda q: cirq.CSWAP(*q[:3]), lambda q: cirq.CCZ(*q[:3]), lambda q: cirq.TOFFOLI(*q[:3]),
              lambda q: cirq.ThreeQubitDiagonalGate([0.1 * k for k in range(8)])(*q[:3]), lambda q: cirq.QuantumFourierTransformGate(3)(*q[:3]),
              lambda q: cirq.ControlledGate(cirq.ISWAP ** 0.5)(*q[:3]), lambda q: cirq.ControlledGate(cirq.X, num_controls=2, control_values=[0, 1])(*q[:3]),
